@@ -273,4 +273,9 @@ theorem post_in_bounds (nozero drops : Bool) (out : Bytes) : ∃ r, post nozero 
   · rw [if_neg (by omega)]; exact ⟨_, rfl⟩
   · rw [if_neg (by omega)]; exact ⟨_, rfl⟩
 
+
+/-- every source fact this property's model consumes was located in the current source by tools/extract (a fact that is not
+found is emitted with a placeholder value; this obligation then fails and the check uses the reference model) -/
+theorem source_facts_located_c14 : JsonC.Generated.factsFound_locale = true := by decide
+
 end JsonC.Locale
